@@ -139,11 +139,11 @@ theorem ok_pubrecOut (b : B) (conn : String) (id code : Nat) :
       · exact ok_setSess _ _
       · exact Ok.refl _ _
 
-theorem ok_disc_tail {P : Out → Prop} (b : B) (c : Cli) (s : Sess) (d : Nat) (de : Option (Option Nat))
+theorem ok_disc_tail {P : Out → Prop} (b : B) (c : Cli) (s : Sess) (d : Nat) (de : Option (Option Nat)) (cw : Bool)
     (hc : b.cli? c.conn = some c) :
     Ok P b (if (s.expiry == 0 && d != 0) = true then b
       else (if (d != 0) = true then b.setSess { s with expiry := d } else b).setCli
-        { c with discExpiry := de, cleanWill := true }) := by
+        { c with discExpiry := de, cleanWill := cw }) := by
   by_cases h1 : (s.expiry == 0 && d != 0) = true
   · rw [if_pos h1]; exact Ok.refl _ _
   · rw [if_neg h1]
@@ -151,7 +151,8 @@ theorem ok_disc_tail {P : Out → Prop} (b : B) (c : Cli) (s : Sess) (d : Nat) (
     · rw [if_pos h2]; exact (ok_setSess _ _).trans (ok_setCli _ _ c hc rfl)
     · rw [if_neg h2]; exact ok_setCli _ _ c hc rfl
 
-theorem ok_disconnectIn {P : Out → Prop} (b : B) (conn : String) (se : Option Nat) : Ok P b (b.disconnectIn conn se) := by
+theorem ok_disconnectIn {P : Out → Prop} (b : B) (conn : String) (se : Option Nat) (code : Nat) :
+    Ok P b (b.disconnectIn conn se code) := by
   unfold B.disconnectIn
   cases hc : b.cli? conn with
   | none => exact Ok.refl _ _
@@ -163,7 +164,7 @@ theorem ok_disconnectIn {P : Out → Prop} (b : B) (conn : String) (se : Option 
     · rw [if_pos hv]
       cases hs : b.sess? c.cid with
       | none => exact Ok.refl _ _
-      | some s => exact ok_disc_tail b c s _ _ hc'
+      | some s => exact ok_disc_tail b c s _ _ _ hc'
     · rw [if_neg hv]
       exact ok_setCli _ _ c hc' rfl
 
@@ -184,7 +185,7 @@ theorem ok_apiTerminate (b : B) (cid : String) :
     exact (ok_emit b c.conn false _ (cli?_isSome_of_mem hm)).trans (ok_unregister _ _ _)
   · next hc =>
     split
-    · refine ⟨Outs.of_eq rfl, fun hw => hw.terminate cid ?_⟩
+    · refine ⟨Outs.of_eq (terminateS_out b cid), fun hw => hw.terminateS cid ?_⟩
       intro x hx hxc
       unfold B.cliOf? at hc
       rw [List.find?_eq_none] at hc
@@ -197,8 +198,8 @@ theorem ok_apiExpire {P : Out → Prop} (b : B) : Ok P b b.apiExpire := by
   generalize b.offline.filter (fun cd => b.now > cd.2) = l at hl
   suffices ∀ (l : List (String × Nat)) (bb : B), bb.out = b.out →
       (WF b → WF bb ∧ ∀ cd ∈ l, ∀ x ∈ bb.clis, x.cid ≠ cd.1) →
-      (l.foldl (fun bb cd => bb.terminate cd.1) bb).out = b.out ∧
-        (WF b → WF (l.foldl (fun bb cd => bb.terminate cd.1) bb)) by
+      (l.foldl (fun bb cd => bb.terminateS cd.1) bb).out = b.out ∧
+        (WF b → WF (l.foldl (fun bb cd => bb.terminateS cd.1) bb)) by
     obtain ⟨h1, h2⟩ := this l b rfl (fun hw => ⟨hw, fun cd hcd x hx => hw.offl cd (hl cd hcd) x hx⟩)
     exact ⟨Outs.of_eq h1, h2⟩
   intro l
@@ -206,9 +207,10 @@ theorem ok_apiExpire {P : Out → Prop} (b : B) : Ok P b b.apiExpire := by
   | nil => intro bb ho hw; exact ⟨ho, fun h => (hw h).1⟩
   | cons cd l ih =>
     intro bb ho hw
-    refine ih (bb.terminate cd.1) ho (fun h => ?_)
+    refine ih (bb.terminateS cd.1) ((terminateS_out bb cd.1).trans ho) (fun h => ?_)
     obtain ⟨h1, h2⟩ := hw h
-    exact ⟨h1.terminate cd.1 (h2 cd List.mem_cons_self), fun cd' hcd' x hx => h2 cd' (List.mem_cons_of_mem _ hcd') x hx⟩
+    refine ⟨h1.terminateS cd.1 (h2 cd List.mem_cons_self), fun cd' hcd' x hx => h2 cd' (List.mem_cons_of_mem _ hcd') x ?_⟩
+    rw [terminateS_clis] at hx; exact hx
 
 theorem ok_apiBackdate {P : Out → Prop} (b : B) (cid : String) (secs : Nat) : Ok P b (b.apiBackdate cid secs) := by
   unfold B.apiBackdate
@@ -247,58 +249,71 @@ theorem ok_unsubscribe (b : B) (conn : String) (pid : Nat) (topics : List String
       (ok_emit _ conn false _ (by show (b.cli? conn).isSome = true; rw [hc]; rfl))
     exact keep_setSubs bb _ (fun cs hcs => .inl (List.mem_filter.1 hcs).1)
 
+theorem ok_pubAck {P : Out → Prop} (b0 X : B) (c : Cli) (r : PubReq) (matched : Bool)
+    (hP : ∀ o : Out, o.conn = r.conn → P o) (h : Ok P b0 X) : Ok P b0 (X.pubAck c r matched) := by
+  unfold B.pubAck
+  extract_lets code b4
+  have hb4 : Ok P b0 b4 := by
+    simp only [b4]
+    split
+    · exact h.trans (ok_emit _ _ _ _ (hP _ rfl))
+    · split
+      · exact h.trans (ok_emit _ _ _ _ (hP _ rfl))
+      · exact h
+  split
+  · exact ok_quotaBack _ _ _ hb4
+  · exact hb4
+
+theorem ok_publishTail {P : Out → Prop} (b0 X : B) (c : Cli) (r : PubReq) (s : Sess)
+    (hP : ∀ o : Out, o.conn = r.conn → P o) (h : Ok P b0 X) : Ok P b0 (X.publishTail c r s) := by
+  unfold B.publishTail
+  extract_lets dupl s1 b1 bm
+  have hb1 : Ok P b0 b1 := by
+    refine (h.trans (ok_setSess X s1)).trans ?_
+    simp only [b1, B.pubRetain]
+    split
+    · split
+      · exact Ok.of_grow (grow_retained _ _)
+      · exact Ok.of_grow (grow_retained _ _)
+    · exact Ok.refl _ _
+  refine ok_pubAck b0 _ c r _ hP ?_
+  simp only [bm]
+  split
+  · exact hb1.trans (Ok.of_grow (grow_deliverMsg _ _ _ _ _))
+  · exact hb1
+
 theorem ok_publish (b : B) (r : PubReq) :
     Ok (fun o => (b.cli? o.conn).isSome = true) b (b.publish r) := by
-  unfold B.publish
+  rw [publish_eq]
   cases hc : b.cli? r.conn with
   | none => exact Ok.refl _ _
   | some c =>
     have hP : ∀ o : Out, o.conn = r.conn → (b.cli? o.conn).isSome = true := fun o ho => by rw [ho, hc]; rfl
     have hconn := (cli?_some hc).2
-    simp -zeta only
-    by_cases h1 : (c.v == 5 && decide (r.qos > 0) && c.quota == 0) = true
-    · rw [if_pos h1]; exact ok_kick _ _ _ hP
-    · rw [if_neg h1]
-      extract_lets c1 b1 m
-      have hc1 : c1.conn = r.conn ∧ c1.cid = c.cid := by
-        simp only [c1]; split <;> exact ⟨hconn, rfl⟩
-      have hb1 : Ok (fun o => (b.cli? o.conn).isSome = true) b b1 :=
-        ok_setCli b c1 c (by rw [hc1.1]; exact hc) hc1.2.symm
-      by_cases h2 : (c1.v == 5 && b1.cfg.maxPacket != 0 && decide (r.size > b1.cfg.maxPacket)) = true
-      · rw [if_pos h2]; exact hb1.trans (ok_kick _ _ _ hP)
-      · rw [if_neg h2]
-        by_cases h3 : (!b1.cfg.retainAvail && r.retain) = true
-        · rw [if_pos h3]; exact hb1.trans (ok_kick _ _ _ hP)
-        · rw [if_neg h3]
-          cases hs : b1.sess? c1.cid with
-          | none => exact hb1
-          | some s =>
-            simp -zeta only
-            extract_lets dupl s1 b2 b3 code b4
-            have hb3 : Ok (fun o => (b.cli? o.conn).isSome = true) b b3 := by
-              have hb2 : Ok (fun o => (b.cli? o.conn).isSome = true) b b2 := hb1.trans (ok_setSess b1 s1)
-              refine hb2.trans ?_
-              simp only [b3]
-              split
-              · split
-                · exact Ok.of_grow (grow_retained _ _)
-                · exact Ok.of_grow (grow_retained _ _)
-              · exact Ok.refl _ _
-            have hd : Ok (fun o => (b.cli? o.conn).isSome = true) b
-                (if (!dupl) = true then b3.deliverMsg c1.cid m r.hints r.rapHint else (b3, false)).fst := by
-              split
-              · exact hb3.trans (Ok.of_grow (grow_deliverMsg _ _ _ _ _))
-              · exact hb3
-            have hb4 : Ok (fun o => (b.cli? o.conn).isSome = true) b b4 := by
-              simp only [b4]
-              split
-              · exact hd.trans (ok_emit _ _ _ _ (hP _ rfl))
-              · split
-                · exact hd.trans (ok_emit _ _ _ _ (hP _ rfl))
-                · exact hd
-            split
-            · exact ok_quotaBack _ _ _ hb4
-            · exact hb4
+    simp only
+    split
+    · exact ok_kick _ _ _ hP
+    · split
+      · exact ok_kick _ _ _ hP
+      · split
+        · exact ok_kick _ _ _ hP
+        · have hb1 : Ok (fun o => (b.cli? o.conn).isSome = true) b (b.setCli (pubCli c r)) :=
+            ok_setCli b (pubCli c r) c (by rw [pubCli_conn, hconn]; exact hc) (pubCli_cid c r).symm
+          have hc1 : (b.setCli (pubCli c r)).cli? r.conn = some (pubCli c r) := by
+            rw [cli?_setCli, if_pos (by rw [pubCli_conn, hconn])]
+          split
+          · exact hb1.trans (ok_kick _ _ _ hP)
+          · split
+            · exact hb1.trans (ok_kick _ _ _ hP)
+            · split
+              · exact hb1.trans (ok_kick _ _ _ hP)
+              · next topic c2 hres =>
+                obtain ⟨h2conn, h2cid, _⟩ := aliasRes_ok hres
+                have hb2 : Ok (fun o => (b.cli? o.conn).isSome = true) b ((b.setCli (pubCli c r)).setCli c2) :=
+                  hb1.trans (ok_setCli _ c2 (pubCli c r) (by rw [h2conn, pubCli_conn, hconn]; exact hc1) h2cid.symm)
+                split
+                · exact hb2
+                · exact ok_publishTail b _ c2 _ _ hP hb2
 
 theorem keep_foldl_pair {α β : Type} (b0 : B) (f : B × β → α → B × β)
     (hf : ∀ acc a, acc.1.clis = b0.clis → Keep acc.1 (f acc a).1) (l : List α) (acc : B × β)
@@ -342,7 +357,7 @@ theorem ok_subscribe (b : B) (conn : String) (pid : Nat) (topics : List SubTopic
           · refine Keep.of_grow (grow_foldl _ (fun bb tm => ?_) _ _)
             split
             · exact Grow.refl _
-            · exact (grow_setSess _ _).trans (grow_msgs _ _)
+            · exact (grow_setSess _ _).trans (grow_msgs_ats _ _ _)
         · exact Keep.refl _
 
 end GmqttVerif.Broker
